@@ -14,7 +14,7 @@ import tempfile
 
 from hypothesis import strategies as st
 
-from ..common import Violation, Collector, run_batches, guard
+from ..common import Violation, Collector, run_batches, guard, case_watchdog
 from ..engines import e1, scripted
 
 PROPERTY = 'C01'
@@ -200,7 +200,8 @@ def replay_on_fd(case):
 
 
 def body(case, col):
-    check_case(case, col)
+    with case_watchdog(30, 'C01 history'):
+        check_case(case, col)
     if not case['marks'] and case['tail'] == 'eof' and (len(case['stream']) % 10 == 3):
         col.count('fd_replays')
         replay_on_fd(case)
